@@ -285,9 +285,11 @@ func (e *Enc) call(x *ssa.Call, st *State) {
 			}
 		}
 		envPost := &Env{e: e, vars: post, st: st, old: pre, pkg: calleePkg, allocPre: pre.Alloc}
+		stPost := st.clone()
 		for _, c := range ct.Ensures {
-			t := e.evalHyp(c.Expr, envPost)
-			e.emitAssert(e.curBlock, implies(e.reachHere(), t))
+			e.assume(e.curBlock, e.reachHere(), c.Expr, func() *Env {
+				return &Env{e: e, vars: post, st: stPost, old: pre, pkg: calleePkg, allocPre: pre.Alloc}
+			})
 		}
 		for _, c := range ct.Records {
 			t := e.evalHyp(c.Expr, envPost)
